@@ -345,7 +345,14 @@ func (d *Downstream) flushAck() error {
 	d.dataIDAckBuffer = make(map[uint32]*message.DataID)
 	d.resultAckBuffer = make([]*message.DownstreamChunkResult, 0)
 
-	return d.wireConn.SendDownstreamDataPointsAck(d.ctx, ack)
+	err := d.wireConn.SendDownstreamDataPointsAck(d.ctx, ack)
+	if err != nil {
+		// not sent (the connection is gone): what it carried is still owed and goes out with the next flush
+		d.upstreamInfoAckBuffer = ack.UpstreamAliases
+		d.dataIDAckBuffer = ack.DataIDAliases
+		d.resultAckBuffer = ack.Results
+	}
+	return err
 }
 
 func (d *Downstream) ackCompleteOrDone(ctx context.Context) <-chan *message.DownstreamChunkAckComplete {
